@@ -2,7 +2,7 @@
 """Copy evaluated seeded changes from /tmp/seed_out + /tmp/seed_eval into /verif/seeded/<id>/."""
 import json, os, shutil, sys, glob
 
-for ev in sorted(glob.glob("/tmp/seed_eval/[CPQRTUVWXYZ]*.json")):
+for ev in sorted(glob.glob("/tmp/seed_eval/[COPQRTUVWXYZ]*.json")):
     name = os.path.basename(ev)[:-5]
     src = f"/tmp/seed_out/{name}"
     try:
